@@ -110,3 +110,752 @@ theorem Sim2.balTo {c : Ctx} {n nS : Nat} {prog : List Insn} {lo hi : Nat} {b1 b
     | false => exact h
 
 end Fancy
+
+namespace Fancy
+
+/-- equality of the two semantics is only needed on good states -/
+theorem Sim2.congrGood {c : Ctx} {n nS : Nat} {prog : List Insn} {lo hi : Nat} {bal cm : Bool} {f g : St → List St} {a b : Nat}
+    (h : Sim2 c n nS prog lo hi bal cm f a b) (hfg : ∀ st, st.Good c n → f st = g st) :
+    Sim2 c n nS prog lo hi bal cm g a b := by
+  intro st aux astk X succ failA hg hl hsucc hf hs
+  have e := hfg st hg
+  rw [← e] at hf hs ⊢
+  exact h st aux astk X succ failA hg hl hsucc hf hs
+
+theorem condFreeAll_drop (es : List Expr) (k : Nat) (h : condFreeAll es = true) : condFreeAll (es.drop k) = true := by
+  induction es generalizing k with
+  | nil => simp [condFreeAll]
+  | cons e es ih =>
+    cases k with
+    | zero => simpa using h
+    | succ k =>
+      simp only [condFreeAll, Bool.and_eq_true] at h
+      simpa using ih k h.2
+
+/-- a non-hard expression in a non-hard context: `compile_delegate`; without `Delegate` it is a literal -/
+theorem sim2_easy (c : Ctx) (n nS : Nat) (prog : List Insn) (lo hi : Nat) (bal cm : Bool) (br : Nat → Bool) (e : Expr)
+    (hard : Bool) (pc nsv gix : Nat) (code : Code) (nsv' : Nat)
+    (hdel : (!hard && !isHard br e) = true) (hv : visit br e hard pc nsv gix = .ok (code, nsv'))
+    (hn : noDeleg code = true) (hc : CodeAt prog pc code) :
+    nsv' = nsv ∧ Sim2 c n nS prog lo hi bal cm (sem c e) pc (pc + code.length) := by
+  rw [visit.eq_def] at hv
+  simp only [hdel, ↓reduceIte, Except.ok.injEq, Prod.mk.injEq] at hv
+  obtain ⟨rfl, rfl⟩ := hv
+  refine ⟨rfl, ?_⟩
+  unfold compileDelegate at hn hc ⊢
+  by_cases hl : isLiteral e = true
+  · simp only [hl, ↓reduceIte, List.length_cons, List.length_nil, Nat.zero_add] at hc ⊢
+    exact sim2_isLiteral c n nS prog lo hi bal cm e pc hl hc.head
+  · simp [hl, noDeleg, Insn.isDelegate] at hn
+
+theorem length_le_one_of_isLiteral (c : Ctx) (e : Expr) (h : isLiteral e = true) (st : St) : (sem c e st).length ≤ 1 := by
+  rw [sem_isLiteral c e h st]
+  split <;> simp
+
+end Fancy
+
+namespace Fancy
+
+/-- the conclusion of the simulation theorem for one expression -/
+def SimOf (c : Ctx) (n nS : Nat) (prog : List Insn) (nsv nsv' : Nat) (bal : Bool) (sm : St → List St) (a b : Nat) : Prop :=
+  nsv ≤ nsv' ∧ (nsv' ≤ nS → ∀ cm, Sim2 c n nS prog nsv nsv' bal cm sm a b)
+
+theorem SimOf.leaf {c : Ctx} {n nS : Nat} {prog : List Insn} {nsv : Nat} {bal : Bool} {sm : St → List St} {a b : Nat}
+    (h : ∀ cm, Sim2 c n nS prog nsv nsv bal cm sm a b) : SimOf c n nS prog nsv nsv bal sm a b := ⟨Nat.le_refl _, fun _ => h⟩
+
+theorem simOf_easy (c : Ctx) (n nS : Nat) (prog : List Insn) (bal : Bool) (br : Nat → Bool) (e : Expr)
+    (hard : Bool) (pc nsv gix : Nat) (code : Code) (nsv' : Nat)
+    (hdel : (!hard && !isHard br e) = true) (hv : visit br e hard pc nsv gix = .ok (code, nsv'))
+    (hn : noDeleg code = true) (hc : CodeAt prog pc code) :
+    SimOf c n nS prog nsv nsv' bal (sem c e) pc (pc + code.length) := by
+  have h1 := (sim2_easy c n nS prog nsv nsv bal true br e hard pc nsv gix code nsv' hdel hv hn hc).1
+  subst h1
+  exact ⟨Nat.le_refl _, fun _ cm => (sim2_easy c n nS prog _ _ bal cm br e hard pc _ gix code _ hdel hv hn hc).2⟩
+
+theorem condFreeAll_take (es : List Expr) (k : Nat) (h : condFreeAll es = true) : condFreeAll (es.take k) = true := by
+  induction es generalizing k with
+  | nil => simp [condFreeAll]
+  | cons e es ih =>
+    cases k with
+    | zero => simp [condFreeAll]
+    | succ k =>
+      simp only [condFreeAll, Bool.and_eq_true] at h
+      simp only [List.take_succ_cons, condFreeAll, Bool.and_eq_true]
+      exact ⟨h.1, ih k h.2⟩
+
+theorem visitAlt_len (br : Nat → Bool) : ∀ (es : List Expr) (hard : Bool) (pc nsv gix : Nat) (f : Nat → Code) (endPc nsv' : Nat),
+    visitAlt br es hard pc nsv gix = .ok (f, endPc, nsv') → ∀ t, pc + (f t).length = endPc
+  | [], hard, pc, nsv, gix, f, endPc, nsv', hv, t => by
+    simp only [visitAlt, Except.ok.injEq, Prod.mk.injEq] at hv
+    obtain ⟨rfl, rfl, _⟩ := hv
+    simp
+  | [e], hard, pc, nsv, gix, f, endPc, nsv', hv, t => by
+    simp only [visitAlt] at hv
+    cases hb : visit br e hard pc nsv gix with
+    | error err => simp [hb] at hv
+    | ok p =>
+      obtain ⟨c1, nsv1⟩ := p
+      simp only [hb, Except.ok.injEq, Prod.mk.injEq] at hv
+      obtain ⟨rfl, rfl, _⟩ := hv
+      rfl
+  | e :: e2 :: es, hard, pc, nsv, gix, f, endPc, nsv', hv, t => by
+    simp only [visitAlt] at hv
+    cases hb : visit br e hard (pc + 1) nsv gix with
+    | error err => simp [hb] at hv
+    | ok p =>
+      obtain ⟨c1, nsv1⟩ := p
+      simp only [hb] at hv
+      cases hb2 : visitAlt br (e2 :: es) hard (pc + 1 + c1.length + 1) nsv1 (gix + groupCount e) with
+      | error err => simp [hb2] at hv
+      | ok p2 =>
+        obtain ⟨f2, endPc2, nsv2⟩ := p2
+        simp only [hb2, Except.ok.injEq, Prod.mk.injEq] at hv
+        obtain ⟨rfl, rfl, _⟩ := hv
+        have := visitAlt_len br (e2 :: es) hard _ nsv1 _ f2 endPc2 nsv2 hb2 t
+        simp only [List.length_append, List.length_cons, List.length_nil]
+        omega
+
+theorem easy_isLiteral (br : Nat → Bool) (e : Expr) (hard : Bool) (pc nsv gix : Nat) (code : Code) (nsv' : Nat)
+    (hdel : (!hard && !isHard br e) = true) (hv : visit br e hard pc nsv gix = .ok (code, nsv'))
+    (hn : noDeleg code = true) : isLiteral e = true := by
+  rw [visit.eq_def] at hv
+  simp only [hdel, ↓reduceIte, Except.ok.injEq, Prod.mk.injEq] at hv
+  obtain ⟨rfl, rfl⟩ := hv
+  unfold compileDelegate at hn
+  by_cases hl : isLiteral e = true
+  · exact hl
+  · simp [hl, noDeleg, Insn.isDelegate] at hn
+
+theorem isAlt_false_ne (e : Expr) (h : isAlt e = false) : ∀ es, e ≠ .alt es := by
+  intro es he; subst he; simp [isAlt] at h
+
+/-- the go-back-then-body semantics of the look-behind layouts, in the form `C13_lookbehind_exact` gives -/
+theorem back_flatMap (k : Nat) (body : St → List St) (st : St) :
+    (if k ≤ st.ix then [({ st with ix := st.ix - k } : St)] else []).flatMap body =
+      if k ≤ st.ix then body { st with ix := st.ix - k } else [] := by
+  split <;> simp
+
+mutual
+theorem sim2_visit (c : Ctx) (n nS : Nat) (br : Nat → Bool) (hlen : c.len < UNSET) :
+    ∀ (e : Expr) (hard : Bool) (pc nsv gix : Nat) (code : Code) (nsv' : Nat) (prog : List Insn),
+      s2ok e = true → slotsBelow n e = true →
+      visit br e hard pc nsv gix = .ok (code, nsv') → noDeleg code = true → CodeAt prog pc code →
+      n ≤ nsv →
+      SimOf c n nS prog nsv nsv' (condFree e) (sem c e) pc (pc + code.length)
+  | .empty, hard, pc, nsv, gix, code, nsv', prog, _, _, hv, hn, hc, _ => by
+    by_cases hdel : (!hard && !isHard br .empty) = true
+    · exact simOf_easy c n nS prog _ br _ hard pc nsv gix code nsv' hdel hv hn hc
+    · rw [visit] at hv
+      simp only [hdel, Bool.false_eq_true, ↓reduceIte, Except.ok.injEq, Prod.mk.injEq] at hv
+      obtain ⟨rfl, rfl⟩ := hv
+      exact SimOf.leaf fun cm => by
+        simpa using (Sim2.nil c n nS prog nsv nsv _ cm pc).congr (fun st => by simp [sem])
+  | .any nl, hard, pc, nsv, gix, code, nsv', prog, _, _, hv, hn, hc, _ => by
+    by_cases hdel : (!hard && !isHard br (.any nl)) = true
+    · exact simOf_easy c n nS prog _ br _ hard pc nsv gix code nsv' hdel hv hn hc
+    · cases nl with
+      | true =>
+        rw [visit] at hv
+        simp only [hdel, Bool.false_eq_true, ↓reduceIte, Except.ok.injEq, Prod.mk.injEq] at hv
+        obtain ⟨rfl, rfl⟩ := hv
+        exact SimOf.leaf fun cm => by simpa using sim2_any c n nS prog nsv nsv _ cm pc hc.head
+      | false =>
+        rw [visit] at hv
+        simp only [hdel, Bool.false_eq_true, ↓reduceIte, Except.ok.injEq, Prod.mk.injEq] at hv
+        obtain ⟨rfl, rfl⟩ := hv
+        exact SimOf.leaf fun cm => by simpa using sim2_anyNoNL c n nS prog nsv nsv _ cm pc hc.head
+  | .assertion a, hard, pc, nsv, gix, code, nsv', prog, _, _, hv, hn, hc, _ => by
+    by_cases hdel : (!hard && !isHard br (.assertion a)) = true
+    · exact simOf_easy c n nS prog _ br _ hard pc nsv gix code nsv' hdel hv hn hc
+    · rw [visit] at hv
+      simp only [hdel, Bool.false_eq_true, ↓reduceIte, Except.ok.injEq, Prod.mk.injEq] at hv
+      obtain ⟨rfl, rfl⟩ := hv
+      exact SimOf.leaf fun cm => by simpa using sim2_assertion c n nS prog nsv nsv _ cm pc a hc.head
+  | .literal v ci, hard, pc, nsv, gix, code, nsv', prog, hok, _, hv, hn, hc, _ => by
+    by_cases hdel : (!hard && !isHard br (.literal v ci)) = true
+    · exact simOf_easy c n nS prog _ br _ hard pc nsv gix code nsv' hdel hv hn hc
+    · simp only [s2ok, Bool.and_eq_true, Bool.not_eq_true'] at hok
+      have hci : ci = false := hok.1
+      subst hci
+      rw [visit] at hv
+      simp only [hdel, Bool.false_eq_true, ↓reduceIte, Bool.not_false, Except.ok.injEq, Prod.mk.injEq] at hv
+      obtain ⟨rfl, rfl⟩ := hv
+      exact SimOf.leaf fun cm => by
+        have := sim2_lit c n nS prog nsv nsv (condFree (.literal v false)) cm pc v hc.head
+        simpa using this.congr (fun st => by simp [sem])
+  | .backref g, hard, pc, nsv, gix, code, nsv', prog, _, hs, hv, hn, hc, _ => by
+    rw [visit] at hv
+    simp only [isHard, Bool.not_true, Bool.and_false, Bool.false_eq_true, ↓reduceIte, Except.ok.injEq, Prod.mk.injEq] at hv
+    obtain ⟨rfl, rfl⟩ := hv
+    exact SimOf.leaf fun cm => by
+      simpa using sim2_backref c n nS prog nsv nsv _ cm pc g hlen hc.head (by simpa [slotsBelow] using hs)
+  | .backrefExists g, hard, pc, nsv, gix, code, nsv', prog, _, hs, hv, hn, hc, _ => by
+    rw [visit] at hv
+    simp only [isHard, Bool.not_true, Bool.and_false, Bool.false_eq_true, ↓reduceIte, Except.ok.injEq, Prod.mk.injEq] at hv
+    obtain ⟨rfl, rfl⟩ := hv
+    exact SimOf.leaf fun cm => by
+      simpa using sim2_backrefExists c n nS prog nsv nsv _ cm pc g hlen hc.head (by simpa [slotsBelow] using hs)
+  | .keepOut, hard, pc, nsv, gix, code, nsv', prog, _, hs, hv, hn, hc, _ => by
+    rw [visit] at hv
+    simp only [isHard, Bool.not_true, Bool.and_false, Bool.false_eq_true, ↓reduceIte, Except.ok.injEq, Prod.mk.injEq] at hv
+    obtain ⟨rfl, rfl⟩ := hv
+    exact SimOf.leaf fun cm => by
+      have := sim2_save c n nS prog nsv nsv (condFree .keepOut) cm pc 0 hc.head (by simpa [slotsBelow] using hs)
+      simpa using this.congr (fun st => by simp [sem])
+  | .contPrev, hard, pc, nsv, gix, code, nsv', prog, _, _, hv, hn, hc, _ => by
+    rw [visit] at hv
+    simp only [isHard, Bool.not_true, Bool.and_false, Bool.false_eq_true, ↓reduceIte, Except.ok.injEq, Prod.mk.injEq] at hv
+    obtain ⟨rfl, rfl⟩ := hv
+    exact SimOf.leaf fun cm => by simpa using sim2_contPrev c n nS prog nsv nsv _ cm pc hc.head
+  | .delegate _ _ _, _, _, _, _, _, _, _, h, _, _, _, _, _ | .subroutine _, _, _, _, _, _, _, _, h, _, _, _, _, _ => by
+    simp [s2ok] at h
+  | .group g e, hard, pc, nsv, gix, code, nsv', prog, hok, hs, hv, hn, hc, hnn => by
+    by_cases hdel : (!hard && !isHard br (.group g e)) = true
+    · exact simOf_easy c n nS prog _ br _ hard pc nsv gix code nsv' hdel hv hn hc
+    · rw [visit] at hv
+      simp only [hdel, Bool.false_eq_true, ↓reduceIte] at hv
+      cases hb : visit br e hard (pc + 1) nsv (gix + 1) with
+      | error err => simp [hb] at hv
+      | ok p =>
+        obtain ⟨code1, nsv1⟩ := p
+        simp only [hb, Except.ok.injEq, Prod.mk.injEq] at hv
+        obtain ⟨rfl, rfl⟩ := hv
+        simp only [s2ok] at hok
+        simp only [slotsBelow, Bool.and_eq_true, decide_eq_true_eq] at hs
+        have hn1 : noDeleg code1 = true := by
+          simp only [noDeleg_append, Bool.and_eq_true] at hn; exact hn.1.2
+        have hc1 : CodeAt prog (pc + 1) code1 := hc.left.right.cast (by addr)
+        obtain ⟨hle, ih⟩ := sim2_visit c n nS br hlen e hard (pc + 1) nsv (gix + 1) code1 _ prog hok hs.2 hb hn1 hc1 hnn
+        have hsave2 : prog[pc + 1 + code1.length]? = some (.save (g * 2 + 1)) := hc.right.head_at (by addr)
+        refine ⟨hle, fun hnS cm => ?_⟩
+        have := sim2_group (cm := cm) (g := g) hc.left.left.head hsave2 (ih hnS false) hs.1 (by omega)
+        simp only [condFree]
+        exact this.cast rfl (by addr)
+  | .concat es, hard, pc, nsv, gix, code, nsv', prog, hok, hs, hv, hn, hc, hnn => by
+    by_cases hdel : (!hard && !isHard br (.concat es)) = true
+    · exact simOf_easy c n nS prog _ br _ hard pc nsv gix code nsv' hdel hv hn hc
+    · rw [visit] at hv
+      simp only [hdel, Bool.false_eq_true, ↓reduceIte] at hv
+      simp only [s2ok] at hok
+      simp only [slotsBelow] at hs
+      generalize hsp : concatSplit br es hard = sp at hv
+      have hle := concatSplit_le br es hard
+      rw [hsp] at hle
+      cases hb : visitMiddle br es sp.1 (sp.2 - sp.1)
+          (pc + (compileDelegates (es.take sp.1) gix).length) nsv (gix + groupCountList (es.take sp.1)) with
+      | error err => simp [hb] at hv
+      | ok p =>
+        obtain ⟨mid, nsv1⟩ := p
+        simp only [hb, Except.ok.injEq, Prod.mk.injEq] at hv
+        obtain ⟨rfl, rfl⟩ := hv
+        simp only [noDeleg_append, Bool.and_eq_true] at hn
+        have hcpre := hc.left.left
+        have hcmid : CodeAt prog (pc + (compileDelegates (es.take sp.1) gix).length) mid := hc.left.right
+        have hcsuf := hc.right
+        obtain ⟨hle2, s2⟩ := sim2_visitMiddle c n nS br hlen es sp.1 (sp.2 - sp.1) _ nsv _ mid nsv1 prog hok hs hb hn.1.2 hcmid hnn
+        refine ⟨hle2, fun hnS cm => ?_⟩
+        have s1 := sim2_delegates_run c n nS prog nsv nsv (condFree (.concat es)) false (es.take sp.1) gix pc hn.1.1 hcpre
+        have s3 := (sim2_delegates_run c n nS prog nsv1 nsv1 (condFree (.concat es)) cm (es.drop sp.2) _ _ hn.2 hcsuf).cast
+          (a' := pc + (compileDelegates (es.take sp.1) gix).length + mid.length) (by addr) rfl
+        have hsplit : es = es.take sp.1 ++ ((es.drop sp.1).take (sp.2 - sp.1) ++ es.drop sp.2) := by
+          have h1 : es.drop sp.1 = (es.drop sp.1).take (sp.2 - sp.1) ++ (es.drop sp.1).drop (sp.2 - sp.1) :=
+            (List.take_append_drop _ _).symm
+          have h2 : (es.drop sp.1).drop (sp.2 - sp.1) = es.drop sp.2 := by
+            rw [List.drop_drop]; congr 1; omega
+          rw [← h2, ← h1, List.take_append_drop]
+        have s2' := ((s2 hnS false).balTo (b2 := condFree (.concat es)) (by
+          intro hb2
+          simp only [condFree] at hb2
+          have := condFreeAll_drop es sp.1 hb2
+          exact condFreeAll_take _ _ this))
+        have key := (s1.seq (s2'.seq s3 (keepsGood_semConcat c n _) hle2 (Nat.le_refl _) (by addr) (by addr))
+          (keepsGood_semConcat c n _) (Nat.le_refl _) hle2 (by addr) (by addr))
+        have := key.congr (g := sem c (.concat es)) (fun st => by
+          simp only [sem]
+          conv => rhs; rw [hsplit]
+          rw [semConcat_append]
+          congr 1; funext r; rw [semConcat_append])
+        exact this.cast rfl (by addr)
+  | .alt es, hard, pc, nsv, gix, code, nsv', prog, hok, hs, hv, hn, hc, hnn => by
+    by_cases hdel : (!hard && !isHard br (.alt es)) = true
+    · exact simOf_easy c n nS prog _ br _ hard pc nsv gix code nsv' hdel hv hn hc
+    · rw [visit] at hv
+      simp only [hdel, Bool.false_eq_true, ↓reduceIte] at hv
+      simp only [s2ok, Bool.and_eq_true] at hok
+      simp only [slotsBelow] at hs
+      cases hb : visitAlt br es hard pc nsv gix with
+      | error err => simp [hb] at hv
+      | ok p =>
+        obtain ⟨f, endPc, nsv1⟩ := p
+        simp only [hb, Except.ok.injEq, Prod.mk.injEq] at hv
+        obtain ⟨rfl, rfl⟩ := hv
+        have ⟨hlenf, hsim⟩ := sim2_visitAlt c n nS br hlen es hard pc nsv gix f endPc _ prog hok.2 hs
+          (by intro h; simp [h] at hok) hb hnn
+        obtain ⟨hle, hsim⟩ := hsim hn hc
+        refine ⟨hle, fun hnS cm => ?_⟩
+        have h2 := (hsim hnS cm).congr (g := sem c (.alt es)) (fun st => by simp only [sem])
+        simp only [condFree]
+        exact h2.cast rfl (hlenf endPc)
+  | .repeat e lo hi greedy, hard, pc, nsv, gix, code, nsv', prog, hok, hs, hv, hn, hc, hnn => by
+    by_cases hdel : (!hard && !isHard br (.repeat e lo hi greedy)) = true
+    · exact simOf_easy c n nS prog _ br _ hard pc nsv gix code nsv' hdel hv hn hc
+    · simp only [s2ok, Bool.and_eq_true, Bool.or_eq_true, bne_iff_ne, ne_eq, decide_eq_true_eq] at hok
+      simp only [slotsBelow] at hs
+      obtain ⟨hoke, hshape⟩ := hok
+      have hw := s2ok_wellShaped e hoke
+      rw [visit] at hv
+      simp only [hdel, Bool.false_eq_true, ↓reduceIte] at hv
+      simp only [condFree]
+      by_cases hopt : (lo == 0 && hi == some 1) = true
+      · -- `?`
+        simp only [hopt, ↓reduceIte] at hv
+        simp only [Bool.and_eq_true, beq_iff_eq] at hopt
+        obtain ⟨rfl, rfl⟩ := hopt
+        cases hb : visit br e hard (pc + 1) nsv gix with
+        | error err => simp [hb] at hv
+        | ok p =>
+          obtain ⟨code1, nsv1⟩ := p
+          simp only [hb, Except.ok.injEq, Prod.mk.injEq] at hv
+          obtain ⟨rfl, rfl⟩ := hv
+          have hn1 : noDeleg code1 = true := by
+            have : noDeleg ([if greedy = true then Insn.split (pc + 1) (pc + 1 + code1.length)
+                else Insn.split (pc + 1 + code1.length) (pc + 1)] ++ code1) = true := by simpa using hn
+            rw [noDeleg_append] at this
+            simp only [Bool.and_eq_true] at this; exact this.2
+          obtain ⟨hle, ih⟩ := sim2_visit c n nS br hlen e hard (pc + 1) nsv gix code1 _ prog hoke hs hb hn1 hc.tail hnn
+          refine ⟨hle, fun hnS cm => ?_⟩
+          have hhead := hc.head
+          cases greedy with
+          | true =>
+            have := Sim2.optG (by simpa using hhead) (ih hnS cm) (by omega)
+            have := this.congr (g := sem c (.repeat e 0 (some 1) true)) (fun st => by rw [sem_opt]; simp)
+            exact this.cast rfl (by addr)
+          | false =>
+            have := Sim2.optL (by simpa using hhead) (ih hnS cm) (by omega)
+            have := this.congr (g := sem c (.repeat e 0 (some 1) false)) (fun st => by rw [sem_opt]; simp)
+            exact this.cast rfl (by addr)
+      · simp only [hopt, Bool.false_eq_true, ↓reduceIte] at hv
+        have heps : (hi == none && minSize e == 0) = false := by
+          rcases hshape with h | h
+          · cases hi with
+            | none => exact absurd rfl h
+            | some v => simp
+          · have : (minSize e == 0) = false := by simp; omega
+            simp [this]
+        simp only [heps, Bool.false_eq_true, ↓reduceIte] at hv
+        by_cases hstar : (lo == 0 && hi == none) = true
+        · -- `*`
+          simp only [hstar, ↓reduceIte] at hv
+          simp only [Bool.and_eq_true, beq_iff_eq] at hstar
+          obtain ⟨rfl, rfl⟩ := hstar
+          have hm : 0 < minSize e := by rcases hshape with h | h; exact absurd rfl h; exact h
+          cases hb : visit br e (hard || isHard br (.repeat e 0 none greedy)) (pc + 1) nsv gix with
+          | error err => simp [hb] at hv
+          | ok p =>
+            obtain ⟨code1, nsv1⟩ := p
+            simp only [hb, Except.ok.injEq, Prod.mk.injEq] at hv
+            obtain ⟨rfl, rfl⟩ := hv
+            have hn1 : noDeleg code1 = true := by
+              simp only [noDeleg_append, Bool.and_eq_true] at hn; exact hn.1.2
+            have hc1 : CodeAt prog (pc + 1) code1 := hc.left.right.cast (by addr)
+            obtain ⟨hle, ih⟩ := sim2_visit c n nS br hlen e _ (pc + 1) nsv gix code1 _ prog hoke hs hb hn1 hc1 hnn
+            refine ⟨hle, fun hnS cm => ?_⟩
+            have hjmp : prog[pc + 1 + code1.length]? = some (.jmp pc) := hc.right.head_at (by addr)
+            have hsplit := hc.left.left.head
+            have := sim2_star (cm := cm) (greedy := greedy) (m := pc + 1 + code1.length)
+              (by cases greedy <;> simpa [Nat.add_assoc] using hsplit) hjmp (ih hnS false) hw hm (by omega)
+            exact this.cast rfl (by addr)
+        · simp only [hstar, Bool.false_eq_true, ↓reduceIte] at hv
+          by_cases hplus : (lo == 1 && hi == none) = true
+          · -- `+`
+            simp only [hplus, ↓reduceIte] at hv
+            simp only [Bool.and_eq_true, beq_iff_eq] at hplus
+            obtain ⟨rfl, rfl⟩ := hplus
+            have hm : 0 < minSize e := by rcases hshape with h | h; exact absurd rfl h; exact h
+            cases hb : visit br e (hard || isHard br (.repeat e 1 none greedy)) pc nsv gix with
+            | error err => simp [hb] at hv
+            | ok p =>
+              obtain ⟨code1, nsv1⟩ := p
+              simp only [hb, Except.ok.injEq, Prod.mk.injEq] at hv
+              obtain ⟨rfl, rfl⟩ := hv
+              have hn1 : noDeleg code1 = true := by
+                simp only [noDeleg_append, Bool.and_eq_true] at hn; exact hn.1
+              obtain ⟨hle, ih⟩ := sim2_visit c n nS br hlen e _ pc nsv gix code1 _ prog hoke hs hb hn1 hc.left hnn
+              refine ⟨hle, fun hnS cm => ?_⟩
+              have hsplit := hc.right.head
+              have := sim2_plus (cm := cm) (greedy := greedy) (m := pc + code1.length)
+                (by cases greedy <;> simpa using hsplit) (ih hnS false) hw hm (by omega)
+              exact this.cast rfl (by addr)
+          · -- counted
+            simp only [hplus, Bool.false_eq_true, ↓reduceIte] at hv
+            cases hb : visit br e (hard || isHard br (.repeat e lo hi greedy)) (pc + 2) (nsv + 1) gix with
+            | error err => simp [hb] at hv
+            | ok p =>
+              obtain ⟨code1, nsv1⟩ := p
+              simp only [hb, Except.ok.injEq, Prod.mk.injEq] at hv
+              obtain ⟨rfl, rfl⟩ := hv
+              have hn1 : noDeleg code1 = true := by
+                simp only [noDeleg_append, Bool.and_eq_true] at hn; exact hn.1.2
+              have hc1 : CodeAt prog (pc + 2) code1 := hc.left.right.cast (by addr)
+              obtain ⟨hle, ih⟩ := sim2_visit c n nS br hlen e _ (pc + 2) (nsv + 1) gix code1 _ prog hoke hs hb hn1 hc1 (by omega)
+              refine ⟨by omega, fun hnS cm => ?_⟩
+              have hsave0 : prog[pc]? = some (.save0 nsv) := hc.left.left.head
+              have hhead : prog[pc + 1]? = some (if greedy then Insn.repeatGr lo hi (pc + 2 + code1.length + 1) nsv
+                  else Insn.repeatNg lo hi (pc + 2 + code1.length + 1) nsv) := by
+                have := hc.left.left.tail.head
+                cases greedy <;> simpa using this
+              have hjmp : prog[pc + 2 + code1.length]? = some (.jmp (pc + 1)) := hc.right.head_at (by addr)
+              have := sim2_counted (cm := cm) (e := e) (greedy := greedy) (lo := lo) (hi := hi) (m := pc + 2 + code1.length)
+                hsave0 hhead hjmp (ih hnS false) hnn (by omega) hle (by omega) hw
+                (by rcases hshape with h | h; exact Or.inl h; exact Or.inr h)
+              exact this.cast rfl (by addr)
+  | .look e .ahead, hard, pc, nsv, gix, code, nsv', prog, hok, hs, hv, hn, hc, hnn => by
+    simp only [s2ok, Bool.and_eq_true] at hok
+    simp only [slotsBelow] at hs
+    rw [visit] at hv
+    simp only [isHard, Bool.not_true, Bool.and_false, Bool.false_eq_true, ↓reduceIte] at hv
+    cases hb : visit br e false (posLookBodyPc (isHard br e) false pc) (nsv + 1) gix with
+    | error err => simp [hb] at hv
+    | ok p =>
+      obtain ⟨code1, nsv1⟩ := p
+      simp only [hb, Except.ok.injEq, Prod.mk.injEq] at hv
+      obtain ⟨rfl, rfl⟩ := hv
+      simp only [condFree, hok.2]
+      by_cases hh : isHard br e = true
+      · -- atomic layout
+        simp only [hh, wrapPosLook, posLookBodyPc, ↓reduceIte, Bool.false_eq_true, List.append_nil, Nat.add_zero] at hn hc hb ⊢
+        have hn1 : noDeleg code1 = true := by
+          simp only [noDeleg_append, Bool.and_eq_true] at hn; exact hn.1.2.1.2
+        have hc1 : CodeAt prog (pc + 2) code1 := hc.left.right.left.right.cast (by addr)
+        obtain ⟨hle, ih⟩ := sim2_visit c n nS br hlen e false (pc + 1 + 1) (nsv + 1) gix code1 _ prog hok.1 hs hb hn1 hc1 (by omega)
+        refine ⟨by omega, fun hnS cm => ?_⟩
+        have hbody := ih hnS true
+        rw [hok.2] at hbody
+        have hsave : prog[pc + 1]? = some (.save nsv) := hc.left.right.left.left.head_at (by addr)
+        have hrestore : prog[pc + 2 + code1.length]? = some (.restore nsv) := hc.left.right.right.head_at (by addr)
+        have hend : prog[pc + 2 + code1.length + 1]? = some .endAtomic := hc.right.head_at (by addr)
+        have := sim2_sem_ahead_atomic (cm := cm) (e := e) (slot := nsv) (hi := nsv1) (a := pc) (m := pc + 2 + code1.length)
+          hc.left.left.head hsave hrestore hend hnn (by omega) (by omega) hbody
+        exact this.cast rfl (by addr)
+      · -- plain layout: the body is not hard, compiled in a non-hard context: a literal
+        have hh' : isHard br e = false := by simpa using hh
+        simp only [hh', wrapPosLook, posLookBodyPc, ↓reduceIte, Bool.false_eq_true, List.append_nil, Nat.add_zero] at hn hc hb ⊢
+        have hn1 : noDeleg code1 = true := by
+          simp only [noDeleg_append, Bool.and_eq_true] at hn; exact hn.1.2
+        have hc1 : CodeAt prog (pc + 1) code1 := hc.left.right.cast (by addr)
+        have hlit := easy_isLiteral br e false (pc + 1) (nsv + 1) gix code1 nsv1 (by simp [hh']) hb hn1
+        obtain ⟨hle, ih⟩ := sim2_visit c n nS br hlen e false (pc + 1) (nsv + 1) gix code1 _ prog hok.1 hs hb hn1 hc1 (by omega)
+        refine ⟨by omega, fun hnS cm => ?_⟩
+        have hbody := ih hnS cm
+        rw [hok.2] at hbody
+        have hrestore : prog[pc + 1 + code1.length]? = some (.restore nsv) := hc.right.head_at (by addr)
+        have := sim2_sem_ahead_plain (cm := cm) (bal := true) (e := e) (slot := nsv) (hi := nsv1) (a := pc) (m := pc + 1 + code1.length)
+          hc.left.left.head hrestore hnn (by omega) (by omega) hbody
+          (length_le_one_of_isLiteral c e hlit)
+        exact this.cast rfl (by addr)
+  | .look e .aheadNeg, hard, pc, nsv, gix, code, nsv', prog, hok, hs, hv, hn, hc, hnn => by
+    simp only [s2ok] at hok
+    simp only [slotsBelow] at hs
+    rw [visit] at hv
+    simp only [isHard, Bool.not_true, Bool.and_false, Bool.false_eq_true, ↓reduceIte] at hv
+    cases hb : visit br e false (negLookBodyPc false pc) nsv gix with
+    | error err => simp [hb] at hv
+    | ok p =>
+      obtain ⟨code1, nsv1⟩ := p
+      simp only [hb, Except.ok.injEq, Prod.mk.injEq] at hv
+      obtain ⟨rfl, rfl⟩ := hv
+      simp only [wrapNegLook, negLookBodyPc, Bool.false_eq_true, ↓reduceIte, List.nil_append, Nat.add_zero] at hn hc hb ⊢
+      have hn1 : noDeleg code1 = true := by
+        simp only [noDeleg_append, Bool.and_eq_true] at hn; exact hn.1.2
+      have hc1 : CodeAt prog (pc + 1) code1 := hc.left.right.cast (by addr)
+      obtain ⟨hle, ih⟩ := sim2_visit c n nS br hlen e false (pc + 1) nsv gix code1 _ prog hok hs hb hn1 hc1 hnn
+      refine ⟨hle, fun hnS cm => ?_⟩
+      have hfail : prog[pc + 1 + code1.length]? = some .failNegLook := hc.right.head_at (by addr)
+      have hsplit : prog[pc]? = some (.split (pc + 1) (pc + 1 + code1.length + 1)) := hc.left.left.head
+      have := sim2_sem_aheadNeg (cm := cm) (e := e) (m := pc + 1 + code1.length) hsplit hfail (ih hnS true)
+      have := this.balTo (b2 := condFree (.look e .aheadNeg)) (fun _ => rfl)
+      exact this.cast rfl (by addr)
+  | .look e .behind, hard, pc, nsv, gix, code, nsv', prog, hok, hs, hv, hn, hc, hnn => by
+    simp only [s2ok, Bool.and_eq_true, Bool.not_eq_true'] at hok
+    simp only [slotsBelow] at hs
+    obtain ⟨⟨⟨hoke, hcf⟩, hna⟩, hz⟩ := hok
+    have hna' := isAlt_false_ne e hna
+    have hw := s2ok_wellShaped e hoke
+    by_cases hcs : constSize e = true
+    · rw [C13_accept_behind_const br e hna' hcs] at hv
+      cases hb : visit br e false (posLookBodyPc (isHard br e) true pc) (nsv + 1) gix with
+      | error err => simp [hb] at hv
+      | ok p =>
+        obtain ⟨code1, nsv1⟩ := p
+        simp only [hb, Except.ok.injEq, Prod.mk.injEq] at hv
+        obtain ⟨rfl, rfl⟩ := hv
+        simp only [condFree, hcf]
+        have hsemeq : ∀ st, st.Good c n →
+            (firstOnly ((if minSize e ≤ st.ix then [({ st with ix := st.ix - minSize e } : St)] else []).flatMap (sem c e))).map
+              (fun r => ({ r with ix := st.ix } : St)) = sem c (.look e .behind) st := by
+          intro st hg
+          rw [C13_lookbehind_pos c n e hna' hw hcs hz st hg (by omega), back_flatMap]
+        by_cases hh : isHard br e = true
+        · simp only [hh, wrapPosLook, posLookBodyPc, ↓reduceIte, Nat.add_zero] at hn hc hb ⊢
+          have hn1 : noDeleg code1 = true := by
+            simp only [noDeleg_append, Bool.and_eq_true] at hn; exact hn.1.2.1.2
+          have hc1 : CodeAt prog (pc + 3) code1 := hc.left.right.left.right.cast (by addr)
+          obtain ⟨hle, ih⟩ := sim2_visit c n nS br hlen e false (pc + 1 + 1 + 1) (nsv + 1) gix code1 _ prog hoke hs hb hn1 hc1 (by omega)
+          refine ⟨by omega, fun hnS cm => ?_⟩
+          have hbody := ih hnS true
+          rw [hcf] at hbody
+          have hsave : prog[pc + 1]? = some (.save nsv) := hc.left.right.left.left.left.head_at (by addr)
+          have hback : prog[pc + 2]? = some (.goBack (minSize e)) := hc.left.right.left.left.right.head_at (by addr)
+          have hrestore : prog[pc + 3 + code1.length]? = some (.restore nsv) := hc.left.right.right.head_at (by addr)
+          have hend : prog[pc + 3 + code1.length + 1]? = some .endAtomic := hc.right.head_at (by addr)
+          have := sim2_posbehind_atomic (cm := cm) (body := sem c e) (slot := nsv) (hi := nsv1) (a := pc)
+            (m := pc + 3 + code1.length) (k := minSize e)
+            hc.left.left.head hsave hback hrestore hend hnn (by omega) (by omega) (by omega) hbody (keepsGood_sem c n e)
+          exact (this.congrGood hsemeq).cast rfl (by addr)
+        · have hh' : isHard br e = false := by simpa using hh
+          simp only [hh', wrapPosLook, posLookBodyPc, ↓reduceIte, Bool.false_eq_true, Nat.add_zero] at hn hc hb ⊢
+          have hn1 : noDeleg code1 = true := by
+            simp only [noDeleg_append, Bool.and_eq_true] at hn; exact hn.1.2
+          have hc1 : CodeAt prog (pc + 2) code1 := hc.left.right.cast (by addr)
+          have hlit := easy_isLiteral br e false (pc + 1 + 1) (nsv + 1) gix code1 nsv1 (by simp [hh']) hb hn1
+          obtain ⟨hle, ih⟩ := sim2_visit c n nS br hlen e false (pc + 1 + 1) (nsv + 1) gix code1 _ prog hoke hs hb hn1 hc1 (by omega)
+          refine ⟨by omega, fun hnS cm => ?_⟩
+          have hbody := ih hnS cm
+          rw [hcf] at hbody
+          have hback : prog[pc + 1]? = some (.goBack (minSize e)) := hc.left.left.right.head_at (by addr)
+          have hrestore : prog[pc + 2 + code1.length]? = some (.restore nsv) := hc.right.head_at (by addr)
+          have := sim2_posbehind_plain (cm := cm) (bal := true) (body := sem c e) (slot := nsv) (hi := nsv1) (a := pc)
+            (m := pc + 2 + code1.length) (k := minSize e)
+            hc.left.left.left.head hback hrestore hnn (by omega) (by omega) (by omega) hbody (keepsGood_sem c n e)
+            (length_le_one_of_isLiteral c e hlit)
+          exact (this.congrGood hsemeq).cast rfl (by addr)
+    · have hcs' : constSize e = false := by simpa using hcs
+      rw [C13_accept_behind_not_const br e hna' hcs'] at hv
+      cases hv
+  | .look e .behindNeg, hard, pc, nsv, gix, code, nsv', prog, hok, hs, hv, hn, hc, hnn => by
+    simp only [s2ok, Bool.and_eq_true, Bool.not_eq_true'] at hok
+    simp only [slotsBelow] at hs
+    obtain ⟨⟨hoke, hna⟩, hz⟩ := hok
+    have hna' := isAlt_false_ne e hna
+    have hw := s2ok_wellShaped e hoke
+    by_cases hcs : constSize e = true
+    · rw [C13_accept_behindNeg_const br e hna' hcs] at hv
+      cases hb : visit br e false (negLookBodyPc true pc) nsv gix with
+      | error err => simp [hb] at hv
+      | ok p =>
+        obtain ⟨code1, nsv1⟩ := p
+        simp only [hb, Except.ok.injEq, Prod.mk.injEq] at hv
+        obtain ⟨rfl, rfl⟩ := hv
+        simp only [wrapNegLook, negLookBodyPc, ↓reduceIte] at hn hc hb ⊢
+        have hn1 : noDeleg code1 = true := by
+          simp only [noDeleg_append, Bool.and_eq_true] at hn; exact hn.1.2.2
+        have hc1 : CodeAt prog (pc + 2) code1 := hc.left.right.right.cast (by addr)
+        obtain ⟨hle, ih⟩ := sim2_visit c n nS br hlen e false (pc + 1 + 1) nsv gix code1 _ prog hoke hs hb hn1 hc1 hnn
+        refine ⟨hle, fun hnS cm => ?_⟩
+        have hsplit : prog[pc]? = some (.split (pc + 1) (pc + 2 + code1.length + 1)) := by
+          have := hc.left.left.head
+          simpa [Nat.add_assoc, Nat.add_comm, Nat.add_left_comm] using this
+        have hback : prog[pc + 1]? = some (.goBack (minSize e)) := hc.left.right.left.head_at (by addr)
+        have hfail : prog[pc + 2 + code1.length]? = some .failNegLook := hc.right.head_at (by addr)
+        have := sim2_negbehind (cm := cm) (body := sem c e) (a := pc) (m := pc + 2 + code1.length) (k := minSize e)
+          hsplit hback hfail (by omega) hle (ih hnS true)
+        have hsemeq : ∀ st, st.Good c n →
+            (if ((if minSize e ≤ st.ix then [({ st with ix := st.ix - minSize e } : St)] else []).flatMap (sem c e)).isEmpty
+              then [st] else []) = sem c (.look e .behindNeg) st := by
+          intro st hg
+          rw [C13_lookbehind_neg c n e hna' hw hcs hz st hg (by omega), back_flatMap]
+        have := (this.congrGood hsemeq).balTo (b2 := condFree (.look e .behindNeg)) (fun _ => rfl)
+        exact this.cast rfl (by addr)
+    · have hcs' : constSize e = false := by simpa using hcs
+      rw [C13_accept_behindNeg_not_const br e hna' hcs'] at hv
+      cases hv
+  | .atomic e, hard, pc, nsv, gix, code, nsv', prog, hok, hs, hv, hn, hc, hnn => by
+    simp only [s2ok, Bool.and_eq_true] at hok
+    simp only [slotsBelow] at hs
+    rw [visit] at hv
+    simp only [isHard, Bool.not_true, Bool.and_false, Bool.false_eq_true, ↓reduceIte] at hv
+    cases hb : visit br e false (pc + 1) nsv gix with
+    | error err => simp [hb] at hv
+    | ok p =>
+      obtain ⟨code1, nsv1⟩ := p
+      simp only [hb, Except.ok.injEq, Prod.mk.injEq] at hv
+      obtain ⟨rfl, rfl⟩ := hv
+      have hn1 : noDeleg code1 = true := by
+        simp only [noDeleg_append, Bool.and_eq_true] at hn; exact hn.1.2
+      have hc1 : CodeAt prog (pc + 1) code1 := hc.left.right.cast (by addr)
+      obtain ⟨hle, ih⟩ := sim2_visit c n nS br hlen e false (pc + 1) nsv gix code1 _ prog hok.1 hs hb hn1 hc1 hnn
+      refine ⟨hle, fun hnS cm => ?_⟩
+      have hend : prog[pc + 1 + code1.length]? = some .endAtomic := hc.right.head_at (by addr)
+      have hbody := ih hnS true
+      rw [hok.2] at hbody
+      have := sim2_sem_atomic (cm := cm) (e := e) (m := pc + 1 + code1.length) hc.left.left.head hend hbody
+      simp only [condFree, hok.2]
+      exact this.cast rfl (by addr)
+  | .cond cnd y no, hard, pc, nsv, gix, code, nsv', prog, hok, hs, hv, hn, hc, hnn => by
+    simp only [s2ok, Bool.and_eq_true] at hok
+    simp only [slotsBelow, Bool.and_eq_true] at hs
+    rw [visit] at hv
+    simp only [isHard, Bool.not_true, Bool.and_false, Bool.false_eq_true, ↓reduceIte] at hv
+    cases hb1 : visit br cnd hard (pc + 2) nsv gix with
+    | error err => simp [hb1] at hv
+    | ok p1 =>
+      obtain ⟨cc, nsv1⟩ := p1
+      simp only [hb1] at hv
+      cases hb2 : visit br y hard (pc + 2 + cc.length + 1) nsv1 (gix + groupCount cnd) with
+      | error err => simp [hb2] at hv
+      | ok p2 =>
+        obtain ⟨yc, nsv2⟩ := p2
+        simp only [hb2] at hv
+        cases hb3 : visit br no hard (pc + 2 + cc.length + 1 + yc.length + 1) nsv2 (gix + groupCount cnd + groupCount y) with
+        | error err => simp [hb3] at hv
+        | ok p3 =>
+          obtain ⟨nc, nsv3⟩ := p3
+          simp only [hb3, Except.ok.injEq, Prod.mk.injEq] at hv
+          obtain ⟨rfl, rfl⟩ := hv
+          simp only [noDeleg_append, Bool.and_eq_true] at hn
+          have hcc : CodeAt prog (pc + 2) cc := hc.left.left.left.left.right.cast (by addr)
+          have hcy : CodeAt prog (pc + 2 + cc.length + 1) yc := hc.left.left.right.cast (by addr)
+          have hcn : CodeAt prog (pc + 2 + cc.length + 1 + yc.length + 1) nc := hc.right.cast (by addr)
+          obtain ⟨hle1, ih1⟩ := sim2_visit c n nS br hlen cnd hard (pc + 2) nsv gix cc _ prog hok.1.1.1 hs.1.1 hb1
+            hn.1.1.1.1.2 hcc hnn
+          obtain ⟨hle2, ih2⟩ := sim2_visit c n nS br hlen y hard _ nsv1 _ yc _ prog hok.1.2 hs.1.2 hb2
+            hn.1.1.2 hcy (by omega)
+          obtain ⟨hle3, ih3⟩ := sim2_visit c n nS br hlen no hard _ nsv2 _ nc _ prog hok.2 hs.2 hb3
+            hn.2 hcn (by omega)
+          refine ⟨by omega, fun hnS cm => ?_⟩
+          have hbegin : prog[pc]? = some .beginAtomic := hc.left.left.left.left.left.head
+          have hsplit : prog[pc + 1]? = some (.split (pc + 2) (pc + 2 + cc.length + 1 + yc.length + 1)) :=
+            hc.left.left.left.left.left.tail.head
+          have hend : prog[pc + 2 + cc.length]? = some .endAtomic := hc.left.left.left.right.head_at (by addr)
+          have hjmp : prog[pc + 2 + cc.length + 1 + yc.length]? =
+              some (.jmp (pc + 2 + cc.length + 1 + yc.length + 1 + nc.length)) := hc.left.right.head_at (by addr)
+          have hcond := ih1 (by omega) true
+          rw [hok.1.1.2] at hcond
+          have := sim2_cond_sem (cm := cm) (cnd := cnd) (y := y) (no := no)
+            (e1 := pc + 2 + cc.length) (e2 := pc + 2 + cc.length + 1 + yc.length)
+            (endPc := pc + 2 + cc.length + 1 + yc.length + 1 + nc.length)
+            hbegin (by simpa [Nat.add_assoc] using hsplit) hend hjmp hcond (ih2 (by omega) cm) (ih3 hnS cm)
+            (by omega) (by omega) (by omega) hle1 hle2 hle3
+          simp only [condFree]
+          exact this.cast rfl (by addr)
+termination_by e => sizeOf e
+decreasing_by all_goals (simp_wf; try omega)
+theorem sim2_visitMiddle (c : Ctx) (n nS : Nat) (br : Nat → Bool) (hlen : c.len < UNSET) :
+    ∀ (es : List Expr) (skip take pc nsv gix : Nat) (code : Code) (nsv' : Nat) (prog : List Insn),
+      s2okAll es = true → slotsBelowAll n es = true →
+      visitMiddle br es skip take pc nsv gix = .ok (code, nsv') → noDeleg code = true → CodeAt prog pc code →
+      n ≤ nsv →
+      SimOf c n nS prog nsv nsv' (condFreeAll ((es.drop skip).take take)) (semConcat c ((es.drop skip).take take)) pc (pc + code.length)
+  | [], skip, take, pc, nsv, gix, code, nsv', prog, _, _, hv, _, _, _ => by
+    simp only [visitMiddle, Except.ok.injEq, Prod.mk.injEq] at hv
+    obtain ⟨rfl, rfl⟩ := hv
+    exact SimOf.leaf fun cm => by
+      simpa [semConcat] using (Sim2.nil c n nS prog nsv nsv _ cm pc).congr (fun st => by simp [semConcat])
+  | e :: es, skip + 1, take, pc, nsv, gix, code, nsv', prog, hok, hs, hv, hn, hc, hnn => by
+    simp only [visitMiddle] at hv
+    simp only [s2okAll, Bool.and_eq_true] at hok
+    simp only [slotsBelowAll, Bool.and_eq_true] at hs
+    simpa using sim2_visitMiddle c n nS br hlen es skip take pc nsv gix code nsv' prog hok.2 hs.2 hv hn hc hnn
+  | e :: es, 0, 0, pc, nsv, gix, code, nsv', prog, _, _, hv, _, _, _ => by
+    simp only [visitMiddle, Except.ok.injEq, Prod.mk.injEq] at hv
+    obtain ⟨rfl, rfl⟩ := hv
+    exact SimOf.leaf fun cm => by
+      simpa [semConcat] using (Sim2.nil c n nS prog nsv nsv _ cm pc).congr (fun st => by simp [semConcat])
+  | e :: es, 0, take + 1, pc, nsv, gix, code, nsv', prog, hok, hs, hv, hn, hc, hnn => by
+    simp only [visitMiddle] at hv
+    simp only [s2okAll, Bool.and_eq_true] at hok
+    simp only [slotsBelowAll, Bool.and_eq_true] at hs
+    cases hb : visit br e true pc nsv gix with
+    | error err => simp [hb] at hv
+    | ok p =>
+      obtain ⟨c1, nsv1⟩ := p
+      simp only [hb] at hv
+      cases hb2 : visitMiddle br es 0 take (pc + c1.length) nsv1 (gix + groupCount e) with
+      | error err => simp [hb2] at hv
+      | ok p2 =>
+        obtain ⟨c2, nsv2⟩ := p2
+        simp only [hb2, Except.ok.injEq, Prod.mk.injEq] at hv
+        obtain ⟨rfl, rfl⟩ := hv
+        simp only [noDeleg_append, Bool.and_eq_true] at hn
+        obtain ⟨hle1, s1⟩ := sim2_visit c n nS br hlen e true pc nsv gix c1 nsv1 prog hok.1 hs.1 hb hn.1 hc.left hnn
+        obtain ⟨hle2, s2⟩ := sim2_visitMiddle c n nS br hlen es 0 take (pc + c1.length) nsv1 _ c2 _ prog hok.2 hs.2 hb2 hn.2
+          hc.right (by omega)
+        refine ⟨by omega, fun hnS cm => ?_⟩
+        have hbal : condFreeAll (((e :: es).drop 0).take (take + 1)) = (condFree e && condFreeAll ((es.drop 0).take take)) := by
+          simp [condFreeAll]
+        rw [hbal]
+        have s1' := (s1 (by omega) false).balTo (b2 := condFree e && condFreeAll ((es.drop 0).take take))
+          (by intro h; simp only [Bool.and_eq_true] at h; exact h.1)
+        have s2' := (s2 hnS cm).balTo (b2 := condFree e && condFreeAll ((es.drop 0).take take))
+          (by intro h; simp only [Bool.and_eq_true] at h; exact h.2)
+        have := (s1'.seq s2' (keepsGood_sem c n e) hle1 hle2 (by omega) (by omega)).congr
+          (g := semConcat c (((e :: es).drop 0).take (take + 1))) (fun st => by simp [semConcat])
+        exact this.cast rfl (by addr)
+termination_by es => sizeOf es
+decreasing_by all_goals (simp_wf; try omega)
+theorem sim2_visitAlt (c : Ctx) (n nS : Nat) (br : Nat → Bool) (hlen : c.len < UNSET) :
+    ∀ (es : List Expr) (hard : Bool) (pc nsv gix : Nat) (f : Nat → Code) (endPc nsv' : Nat) (prog : List Insn),
+      s2okAll es = true → slotsBelowAll n es = true → es ≠ [] →
+      visitAlt br es hard pc nsv gix = .ok (f, endPc, nsv') → n ≤ nsv →
+      (∀ t, pc + (f t).length = endPc) ∧
+        (noDeleg (f endPc) = true → CodeAt prog pc (f endPc) →
+          SimOf c n nS prog nsv nsv' (condFreeAll es) (semAlt c es) pc endPc)
+  | [], hard, pc, nsv, gix, f, endPc, nsv', prog, _, _, hne, hv, _ => absurd rfl hne
+  | [e], hard, pc, nsv, gix, f, endPc, nsv', prog, hok, hs, _, hv, hnn => by
+    simp only [visitAlt] at hv
+    simp only [s2okAll, Bool.and_eq_true] at hok
+    simp only [slotsBelowAll, Bool.and_eq_true] at hs
+    cases hb : visit br e hard pc nsv gix with
+    | error err => simp [hb] at hv
+    | ok p =>
+      obtain ⟨c1, nsv1⟩ := p
+      simp only [hb, Except.ok.injEq, Prod.mk.injEq] at hv
+      obtain ⟨rfl, rfl, rfl⟩ := hv
+      refine ⟨by simp, ?_⟩
+      intro hn hc
+      obtain ⟨hle, ih⟩ := sim2_visit c n nS br hlen e hard pc nsv gix c1 nsv1 prog hok.1 hs.1 hb hn hc hnn
+      refine ⟨hle, fun hnS cm => ?_⟩
+      simp only [condFreeAll, Bool.and_true]
+      exact (ih hnS cm).congr (fun st => by simp [semAlt])
+  | e :: e2 :: es, hard, pc, nsv, gix, f, endPc, nsv', prog, hok, hs, _, hv, hnn => by
+    simp only [visitAlt] at hv
+    simp only [s2okAll, Bool.and_eq_true] at hok
+    simp only [slotsBelowAll, Bool.and_eq_true] at hs
+    cases hb : visit br e hard (pc + 1) nsv gix with
+    | error err => simp [hb] at hv
+    | ok p =>
+      obtain ⟨c1, nsv1⟩ := p
+      simp only [hb] at hv
+      cases hb2 : visitAlt br (e2 :: es) hard (pc + 1 + c1.length + 1) nsv1 (gix + groupCount e) with
+      | error err => simp [hb2] at hv
+      | ok p2 =>
+        obtain ⟨f2, endPc2, nsv2⟩ := p2
+        simp only [hb2, Except.ok.injEq, Prod.mk.injEq] at hv
+        obtain ⟨rfl, rfl, rfl⟩ := hv
+        have hlen2 : ∀ t, pc + 1 + c1.length + 1 + (f2 t).length = endPc2 :=
+          visitAlt_len br (e2 :: es) hard _ nsv1 _ f2 endPc2 nsv2 hb2
+        refine ⟨by intro t; have := hlen2 t; simp only [List.length_append, List.length_cons, List.length_nil]; omega, ?_⟩
+        intro hn hc
+        simp only [noDeleg_append, Bool.and_eq_true] at hn
+        have hc1 : CodeAt prog (pc + 1) c1 := hc.left.left.right.cast (by addr)
+        have hcj : prog[pc + 1 + c1.length]? = some (.jmp _) := hc.left.right.head_at (by addr)
+        have hc2 : CodeAt prog (pc + 1 + c1.length + 1) (f2 _) := hc.right.cast (by addr)
+        obtain ⟨hle1, s1⟩ := sim2_visit c n nS br hlen e hard (pc + 1) nsv gix c1 nsv1 prog hok.1 hs.1 hb hn.1.1.2 hc1 hnn
+        have ⟨_, hsim2⟩ := sim2_visitAlt c n nS br hlen (e2 :: es) hard (pc + 1 + c1.length + 1) nsv1 _ f2 _ _ prog
+          (by simp [s2okAll, hok.2.1, hok.2.2]) (by simp [slotsBelowAll, hs.2.1, hs.2.2]) (by simp) hb2 (by omega)
+        obtain ⟨hle2, s2⟩ := hsim2 hn.2 hc2
+        refine ⟨by omega, fun hnS cm => ?_⟩
+        have hsplit : prog[pc]? = some (.split (pc + 1) (pc + 1 + c1.length + 1)) := hc.left.left.left.head
+        have hbal : condFreeAll (e :: e2 :: es) = (condFree e && condFreeAll (e2 :: es)) := by simp [condFreeAll]
+        rw [hbal]
+        have s1' := ((s1 (by omega) cm).widen (Nat.le_refl nsv) hle2).balTo (b2 := condFree e && condFreeAll (e2 :: es))
+          (by intro h; simp only [Bool.and_eq_true] at h; exact h.1)
+        have s2' := ((s2 hnS cm).widen hle1 (Nat.le_refl _)).balTo (b2 := condFree e && condFreeAll (e2 :: es))
+          (by intro h; simp only [Bool.and_eq_true] at h; exact h.2)
+        have := Sim2.alt2 (m := pc + 1 + c1.length) hsplit hcj (by simpa using s1') s2' (by omega) (by have := hlen2 endPc2; omega)
+        exact this.congr (fun st => by simp [semAlt])
+termination_by es => sizeOf es
+decreasing_by all_goals (simp_wf; try omega)
+end
+
+end Fancy
